@@ -333,21 +333,29 @@ class DeterministicFiniteAutomaton(NondeterministicFiniteAutomaton):
         # Create a state for this
         to_new_states = {}
         for group in groups:
+            if None in group:
+                # States equivalent to the trash node accept nothing
+                continue
             new_state = to_single_state(group)
             for state in group:
                 to_new_states[state] = new_state
         # Build the DFA
         dfa = DeterministicFiniteAutomaton()
         for state in self._start_state:
+            if state not in to_new_states:
+                dfa.add_start_state(State("Empty"))
+                return dfa
             dfa.add_start_state(to_new_states[state])
         for state in states:
+            if state not in to_new_states:
+                continue
             if state in self._final_states:
                 dfa.add_final_state(to_new_states[state])
             done = set()
             new_state = to_new_states[state]
             for symbol in self._input_symbols:
                 for next_node in self._transition_function(state, symbol):
-                    if next_node in states:
+                    if next_node in states and next_node in to_new_states:
                         next_node = to_new_states[next_node]
                         if (next_node, symbol) not in done:
                             dfa.add_transition(new_state, symbol, next_node)
